@@ -4,7 +4,7 @@ usage: seedall.py <stage label> [--tier quick] [--also C14:C06-1,C09:C06-2 ...]"
 import json, glob, os, subprocess, sys
 label = sys.argv[1]
 tier = sys.argv[sys.argv.index("--tier") + 1] if "--tier" in sys.argv else "quick"
-extra = {"C06-1": ["C14"], "C06-2": ["C09"], "C05-1": ["C08"], "C01-1": ["C12"], "C05-2": ["C12"]}
+extra = {"C06-1": ["C14"], "C06-2": ["C09"], "C06-R2-1": ["C14"], "C13-R2-1": ["C09"], "C05-1": ["C08"], "C01-1": ["C12"], "C05-2": ["C12"]}
 rows = []
 for d in sorted(glob.glob("/verif/seeded/*/")):
     name = os.path.basename(d.rstrip("/"))
